@@ -230,7 +230,13 @@ func execWS(f []string) string {
 		return "BADARITY"
 	}
 	cs, ss, bodyExpected := f[1] == "1", f[2] == "1", f[3] == "1"
-	codec := f[4]
+	// codec[~variant]: the variant adds one more Accept value to the handshake which matches no marshaler
+	// (e = text/event-stream, s = */*, q = a quality list, E = TEXT/EVENT-STREAM): the WebSocket record format must not depend on it
+	codec, variant, _ := strings.Cut(f[4], "~")
+	extraAccept, okVariant := wsExtraAccept[variant]
+	if !okVariant {
+		return "BADCODEC"
+	}
 	frames := splitList(f[5])
 	resp := hexList(f[6])
 	end := parseEnd(f[7])
@@ -300,6 +306,9 @@ func execWS(f []string) string {
 			hdr.Set("Accept", "application/json")
 		}
 	}
+	if extraAccept != "" {
+		hdr["Accept"] = append(hdr["Accept"], extraAccept)
+	}
 	dialer := websocket.Dialer{HandshakeTimeout: 5 * time.Second}
 	conn, hresp, err := dialer.Dial("ws"+strings.TrimPrefix(srv.URL, "http")+"/call", hdr)
 	if err != nil {
@@ -308,6 +317,11 @@ func execWS(f []string) string {
 			st = hresp.StatusCode
 		}
 		close(sc.barrier)
+		select {
+		case <-returned:
+		case <-time.After(5 * time.Second):
+			return fmt.Sprintf("%d - - none - noreturn -", st)
+		}
 		return fmt.Sprintf("%d - - none - noupgrade -", st)
 	}
 	defer conn.Close()
@@ -457,6 +471,10 @@ func execWS(f []string) string {
 
 var _ = io.EOF
 
+var wsExtraAccept = map[string]string{
+	"": "", "e": "text/event-stream", "s": "*/*", "q": "text/event-stream;q=0.9, application/json;q=0.8", "E": "TEXT/EVENT-STREAM",
+}
+
 // ---- bind ---------------------------------------------------------------------------------------
 //
 //	bind <cs> <ss> <accept…> <content-type…>
@@ -495,7 +513,20 @@ func execBind(f []string) string {
 	reqMime, reqBin := reqtc.ContentType()
 	respCT, respBin := resptc.ContentType(newMsg("x"))
 	_, streams := resptc.(transcoding.ResponseStreamTranscoder)
-	return fmt.Sprintf("ok %s %s %s %s %s", common.HexS(reqMime), b01(reqBin), common.HexS(respCT), b01(respBin), b01(streams))
+	// the per-message Transcode of the bound response transcoder next to the bare output of the marshaler it was bound to:
+	// record framing (SSE `data:`, NDJSON line feed) belongs to the stream encoder, never to Transcode (WebSocket frames are built from it)
+	doc, terr := resptc.Transcode(newMsg("x"))
+	var bare []byte
+	if respBin {
+		bare, _ = binMarshaler{}.Marshal(nil, newMsg("x").ProtoReflect(), nil)
+	} else {
+		bare, _ = transcoding.DefaultJSONMarshaler.Marshal(testTypes, newMsg("x").ProtoReflect(), nil)
+	}
+	docS := common.Hex(doc)
+	if terr != nil {
+		docS = "!"
+	}
+	return fmt.Sprintf("ok %s %s %s %s %s %s %s", common.HexS(reqMime), b01(reqBin), common.HexS(respCT), b01(respBin), b01(streams), docS, common.Hex(bare))
 }
 
 // ---- wsup ---------------------------------------------------------------------------------------
